@@ -436,3 +436,119 @@ class Leg:
     def replay(self, case, timeout=None):
         r = self.invoke("replay", case, case + 1, 1, log=True, timeout=timeout or self.timeout)
         return r, self.classify(r)
+
+
+# --------------------------------------------------------------------------
+class FuzzLeg:
+    """coverage-guided exploration: N libFuzzer processes, each `runs` executions"""
+
+    def __init__(self, exe, name, seed, workdir, repo, runs, jobs=16, max_len=4096, corpus=None, known=(), timeout=3000):
+        self.exe, self.name, self.seed, self.work, self.repo = exe, name, seed, workdir, repo
+        self.runs, self.jobs, self.max_len, self.corpus = runs, jobs, max_len, corpus
+        self.known = list(known)
+        self.timeout = timeout
+        self.violations, self.inconclusive, self.counters, self.samples = [], [], {}, []
+        self.evaluations = self.nontrivial = self.invocations = 0
+        self.total = runs * jobs
+        self.stride = 1
+        self.stats = {}
+        self.lock = threading.Lock()
+        self._fps = set()
+
+    def one(self, i):
+        cdir = os.path.join(self.work, "corpus-%d" % i)
+        os.makedirs(cdir, exist_ok=True)
+        env = dict(os.environ)
+        env["ASAN_OPTIONS"] = "detect_leaks=0:allocator_may_return_null=1:handle_abort=1:symbolize=1"
+        env["UBSAN_OPTIONS"] = "print_stacktrace=1"
+        env["VF_FUZZ_STATS"] = os.path.join(self.work, "stats-%d" % i)
+        env["VERIF_REPO"] = self.repo
+        if self.known:
+            env["VF_KNOWN"] = ",".join(self.known)
+        cmd = [self.exe, "-runs=%d" % self.runs, "-seed=%d" % (self.seed * 1000 + i + 1), "-max_len=%d" % self.max_len,
+               "-artifact_prefix=%s/artifact-%d-" % (self.work, i), "-print_final_stats=1", "-timeout=60", cdir]
+        if self.corpus and os.path.isdir(self.corpus):
+            cmd.append(self.corpus)
+        errp = os.path.join(self.work, "fuzz-%d.log" % i)
+        with open(errp, "wb") as errf:
+            try:
+                p = subprocess.run(cmd, env=env, stdout=subprocess.DEVNULL, stderr=errf, cwd=self.work, timeout=self.timeout)
+                rc = p.returncode
+            except subprocess.TimeoutExpired:
+                rc = None
+        with open(errp, "r", errors="replace") as fh:
+            err = fh.read()
+        done = 0
+        m = re.search(r"stat::number_of_executed_units:\s*(\d+)", err)
+        if m:
+            done = int(m.group(1))
+        cov = ft = corp = 0
+        for m in re.finditer(r"#\d+\s+\S+\s+cov: (\d+) ft: (\d+) corp: (\d+)", err):
+            cov, ft, corp = int(m.group(1)), int(m.group(2)), int(m.group(3))
+        with self.lock:
+            self.invocations += 1
+            self.evaluations += done
+            self.stats[i] = dict(executed=done, cov=cov, features=ft, corpus=corp, rc=rc)
+            try:
+                for line in open(env["VF_FUZZ_STATS"]):
+                    k, v = line.rsplit(" ", 1)
+                    self.counters[k] = self.counters.get(k, 0) + int(v)
+            except OSError:
+                pass
+            for f in sorted(os.listdir(cdir))[:2000]:
+                self._fps.add(f)
+        if rc == 0:
+            return
+        if rc is None:
+            with self.lock:
+                self.inconclusive.append("%s job %d: watchdog" % (self.name, i))
+            return
+        key = detail = None
+        m = re.search(r"VF_FAIL key=(\S+) (@\S*) :: ([^\n]*)", err)
+        if m:
+            key, detail = m.group(1), m.group(3)
+        else:
+            kind, fn, frames = parse_san(err, self.repo)
+            if kind:
+                key = "san:%s:%s@fuzz" % (kind, fn or "?")
+                detail = "%s in %s (stack: %s)" % (kind, fn, " <- ".join(f for f, _ in frames[:6]))
+            elif "libFuzzer: timeout" in err:
+                key, detail = "hang:@fuzz", "libFuzzer: one input ran longer than 60 s"
+        art = [f for f in os.listdir(self.work) if f.startswith("artifact-%d-" % i)]
+        if key is None:
+            with self.lock:
+                self.inconclusive.append("%s job %d ended rc=%s without verdict: %s" % (self.name, i, rc, err[-300:]))
+            return
+        data = b""
+        if art:
+            with open(os.path.join(self.work, art[0]), "rb") as fh:
+                data = fh.read()
+        with self.lock:
+            self.violations.append(dict(leg=self.name, case=i, key=key, detail=detail, confirmed_alone=True,
+                                        history=err[-6000:], sanitizer="", seed=self.seed, tier="thorough",
+                                        fuzz_input_hex=data.hex()))
+
+    def run(self):
+        ths = [threading.Thread(target=self.one, args=(i,)) for i in range(self.jobs)]
+        for t in ths:
+            t.start()
+        for t in ths:
+            t.join()
+        self.nontrivial = len(self._fps)
+        self.samples = ["libFuzzer job %d: %s" % (i, json_dumps(s)) for i, s in sorted(self.stats.items())[:3]]
+        cov = max([s["cov"] for s in self.stats.values()] or [0])
+        self.counters["fuzz:max-edge-coverage"] = cov
+        self.counters["fuzz:corpus-units"] = len(self._fps)
+        self.total = self.evaluations
+        return self
+
+    def count_cases(self):
+        return self.total
+
+    def fingerprints(self):
+        return set(hash(f) & 0xffffffffffffffff for f in self._fps)
+
+
+def json_dumps(o):
+    import json
+    return json.dumps(o, sort_keys=True)
